@@ -61,6 +61,7 @@ class Node:
 class _Loop:
     def __init__(self, head):
         self.head = head
+        self.back: Optional[int] = None
         self.breaks: List[Tuple[int, Optional[str]]] = []
 
 
@@ -185,8 +186,7 @@ class CFG:
                 if kind == "break":
                     fr.breaks.extend(preds)
                 else:
-                    for p, lab in preds:
-                        self._edge(p, fr.head, "loop")
+                    self._loop_back(preds, fr)
                 return
             i -= 1
         if not preds:
@@ -197,6 +197,17 @@ class CFG:
         elif kind == "return":
             self._connect(preds, self.exit)
         # break/continue outside loop: ignore
+
+    def _loop_back(self, preds, loop):
+        """Back edges go through one synthetic join node per loop so that the branch label of the
+        last statement (`if c: ...` at the end of a loop body) is preserved on its own edge."""
+        if not preds:
+            return
+        if loop.back is None:
+            loop.back = self._new("join")
+            self._edge(loop.back, loop.head, "loop")
+        for p, lab in preds:
+            self._edge(p, loop.back, lab)
 
     def _raise_edges(self, node, st, frames):
         if self._may_raise(st):
@@ -227,8 +238,7 @@ class CFG:
             self._raise_edges(t, st, frames)
             loop = _Loop(t)
             b = self._seq(st.body, [(t, "true")], frames + [loop])
-            for p, lab in b:
-                self._edge(p, t, "loop")
+            self._loop_back(b, loop)
             out = []
             if _const_truth(st.test) is not True:
                 if st.orelse:
@@ -242,8 +252,7 @@ class CFG:
             self._raise_edges(t, st, frames)
             loop = _Loop(t)
             b = self._seq(st.body, [(t, "true")], frames + [loop])
-            for p, lab in b:
-                self._edge(p, t, "loop")
+            self._loop_back(b, loop)
             if st.orelse:
                 out = self._seq(st.orelse, [(t, "false")], frames)
             else:
@@ -254,7 +263,13 @@ class CFG:
             self._connect(preds, w)
             self._raise_edges(w, st, frames)
             fr = _With(st)
-            return self._seq(st.body, [(w, None)], frames + [fr])
+            ends = self._seq(st.body, [(w, None)], frames + [fr])
+            if any((call_name(i.context_expr) or "").endswith("safe_reraise") for i in st.items
+                   if isinstance(i.context_expr, ast.Call)):
+                # util.safe_reraise(): the block re-raises the exception being handled when it ends
+                self._jump("exc", [(p, "exc") for p, _ in ends], frames)
+                return []
+            return ends
         if isinstance(st, ast.Try) or st.__class__.__name__ == "TryStar":
             inner = list(frames)
             fin = None
